@@ -33,6 +33,9 @@ pub struct RunCfg {
     pub read_only: bool,
     /// bit i set: real 3 ms pause before step i (lets short-lived cache entries expire)
     pub pauses: u32,
+    /// publish calls issued from a spawned task
+    #[serde(default)]
+    pub spawned: bool,
 }
 #[derive(Serialize, Deserialize, Clone, Debug)]
 pub struct Case {
@@ -195,7 +198,17 @@ async fn real_transcript<TC: Tcfg>(case: &Case, rc: &RunCfg) -> R<Vec<String>> {
     }
     for (i, b) in batches.iter().enumerate() {
         before_step!();
-        match dir.publish(to_batch(b)).await {
+        let pres = if rc.spawned {
+            let d = dir.clone();
+            let bb = to_batch(b);
+            match tokio::task::spawn(async move { d.publish(bb).await }).await {
+                Ok(r) => r,
+                Err(e) => return fail("panic", format!("publish task panicked: {e}")),
+            }
+        } else {
+            dir.publish(to_batch(b)).await
+        };
+        match pres {
             Ok(eh) => {
                 if eh.0 as usize == roots.len() {
                     roots.push(eh.1);
@@ -393,7 +406,7 @@ pub fn cachekind_strategy() -> impl Strategy<Value = CacheKind> {
 }
 pub fn runcfg_strategy() -> impl Strategy<Value = RunCfg> {
     (par_strategy(), cachekind_strategy(), prop_oneof![2 => Just(0u32), 2 => any::<u32>(), 1 => Just(u32::MAX)], any::<bool>(), prop_oneof![2 => Just(0u32), 1 => any::<u32>().prop_map(|x| x & 0x1111_1111)])
-        .prop_map(|(par, cache, restarts, read_only, pauses)| RunCfg { par, cache, restarts, read_only, pauses: if matches!(cache, CacheKind::ShortLife(_) | CacheKind::Custom(..)) { pauses } else { 0 } })
+        .prop_map(|(par, cache, restarts, read_only, pauses)| RunCfg { par, cache, restarts, read_only, pauses: if matches!(cache, CacheKind::ShortLife(_) | CacheKind::Custom(..)) { pauses } else { 0 }, spawned: restarts % 3 == 1 })
 }
 
 pub fn strategy(thorough: bool) -> impl Strategy<Value = Case> {
@@ -406,7 +419,7 @@ pub fn strategy(thorough: bool) -> impl Strategy<Value = Case> {
     )
         .prop_map(|(cfg, hist, script, mut runs)| {
             // the first run is always the plain baseline
-            runs[0] = RunCfg { par: ParKind::Disabled, cache: CacheKind::None, restarts: 0, read_only: false, pauses: 0 };
+            runs[0] = RunCfg { par: ParKind::Disabled, cache: CacheKind::None, restarts: 0, read_only: false, pauses: 0, spawned: false };
             Case { cfg, hist, script, runs }
         })
 }
@@ -417,7 +430,7 @@ fn cross_product() -> Vec<RunCfg> {
     for par in [ParKind::Disabled, ParKind::Static(1), ParKind::Static(2), ParKind::Static(7), ParKind::Static(32), ParKind::Default] {
         for cache in [CacheKind::None, CacheKind::Default, CacheKind::ShortLife(2), CacheKind::Tiny(300)] {
             for (restarts, read_only) in [(0u32, false), (0x5555_5555, false), (u32::MAX, true), (0, true)] {
-                v.push(RunCfg { par, cache, restarts, read_only, pauses: if matches!(cache, CacheKind::ShortLife(_)) { 0x0101_0101 } else { 0 } });
+                v.push(RunCfg { par, cache, restarts, read_only, pauses: if matches!(cache, CacheKind::ShortLife(_)) { 0x0101_0101 } else { 0 }, spawned: restarts == 0x5555_5555 });
             }
         }
     }
